@@ -162,7 +162,7 @@ func (c *Client) Call(serviceMethod string, args interface{}, reply interface{})
 
 // CallWithContext acts like Call but takes a context.
 func (c *Client) CallWithContext(ctx context.Context, serviceMethod string, args interface{}, reply interface{}) error {
-	address, target, err := c.director()
+	address, target, err := c.directorContext(ctx)
 	if err != nil {
 		return err
 	}
@@ -266,6 +266,13 @@ func (c *Client) transport() RoundTripper {
 }
 
 func (c *Client) director() (address string, t *target, err error) {
+	return c.directorContext(nil)
+}
+
+// directorContext is director for a caller that may give up: while it waits
+// for a live target it also watches ctx, so that CallWithContext returns the
+// context's error as soon as the context is done.
+func (c *Client) directorContext(ctx context.Context) (address string, t *target, err error) {
 	if atomic.LoadUint32(&c.closed) > 0 {
 		return "", nil, ErrShutdown
 	}
@@ -289,6 +296,10 @@ func (c *Client) director() (address string, t *target, err error) {
 	w.Done = done
 	c.wait(w)
 	timer := time.NewTimer(c.DialTimeout)
+	var cancelled <-chan struct{}
+	if ctx != nil {
+		cancelled = ctx.Done()
+	}
 	runtime.Gosched()
 	select {
 	case <-w.Done:
@@ -309,6 +320,13 @@ func (c *Client) director() (address string, t *target, err error) {
 		delete(c.pending, seq)
 		c.lock.Unlock()
 		err = ErrTimeout
+	case <-cancelled:
+		timer.Stop()
+		seq := w.seq
+		c.lock.Lock()
+		delete(c.pending, seq)
+		c.lock.Unlock()
+		err = ctx.Err()
 	}
 	return
 }
